@@ -1,5 +1,7 @@
 //! C09: Generation::serial_next / par_next with an instrumented child maker.
 //! input = [mode, population, fail_at]   mode 0 = serial_next, T > 0 = par_next in a rayon pool of T threads
+//!      or [mode, population, fail_at, [[mode, fail_at]...]]: further steps of the SAME Generation value
+//!         (observation then has a 4th element: the list of [result, population afterwards, log] of those steps)
 //! observation = [[0] | [1, error], population afterwards,
 //!                [[saw the generation's own population (address), saw the old contents, word1, word2, 0|1, child|error]...]]
 use std::sync::atomic::{AtomicI64, AtomicUsize, Ordering};
@@ -19,8 +21,8 @@ struct CmErr(i64);
 struct Probe {
     log: Arc<Mutex<Vec<Tree>>>,
     calls: Arc<AtomicI64>,
-    fail_at: i64,
-    old: Arc<Vec<i64>>,
+    fail_at: Arc<AtomicI64>,
+    old: Arc<Mutex<Vec<i64>>>,
     addr: Arc<AtomicUsize>,
 }
 impl Composable for Probe {}
@@ -31,9 +33,9 @@ impl<'p> Operator<&'p Vec<i64>> for Probe {
         let k = self.calls.fetch_add(1, Ordering::SeqCst);
         let (w1, w2) = (rng.next_u64(), rng.next_u64());
         let addr_ok = std::ptr::eq(pop, self.addr.load(Ordering::SeqCst) as *const Vec<i64>);
-        let same = *pop == *self.old;
+        let same = *pop == *self.old.lock().unwrap();
         let child = (w1 >> 2) as i64;
-        let failed = k == self.fail_at;
+        let failed = k == self.fail_at.load(Ordering::SeqCst);
         self.log.lock().unwrap().push(tl![ab(addr_ok), ab(same), a(w1), a(w2), ab(failed), a(if failed { k } else { child })]);
         if failed {
             Err(CmErr(k))
@@ -45,31 +47,58 @@ impl<'p> Operator<&'p Vec<i64>> for Probe {
 
 fn run(input: &Tree) -> Option<Tree> {
     let l = input.list()?;
-    let mode = l.first()?.usize()?;
+    if l.len() != 3 && l.len() != 4 {
+        return None;
+    }
     let pop: Vec<i64> = l.get(1)?.list()?.iter().map(Tree::i64).collect::<Option<_>>()?;
-    let fail_at = l.get(2)?.i64()?;
+    let mut steps: Vec<(usize, i64)> = vec![(l.first()?.usize()?, l.get(2)?.i64()?)];
+    if let Some(more) = l.get(3) {
+        for st in more.list()? {
+            let st = st.list()?;
+            if st.len() != 2 {
+                return None;
+            }
+            steps.push((st.first()?.usize()?, st.get(1)?.i64()?));
+        }
+    }
+    if steps.iter().any(|(m, _)| *m > 64) {
+        return None;
+    }
     let probe = Probe {
         log: Arc::new(Mutex::new(vec![])),
         calls: Arc::new(AtomicI64::new(0)),
-        fail_at,
-        old: Arc::new(pop.clone()),
+        fail_at: Arc::new(AtomicI64::new(-1)),
+        old: Arc::new(Mutex::new(pop.clone())),
         addr: Arc::new(AtomicUsize::new(0)),
     };
     let mut g = Generation::new(probe.clone(), pop);
-    probe.addr.store(g.population() as *const Vec<i64> as usize, Ordering::SeqCst);
-    let r = if mode == 0 {
-        g.serial_next()
-    } else {
-        let pool = rayon::ThreadPoolBuilder::new().num_threads(mode).build().ok()?;
-        pool.install(|| g.par_next())
-    };
-    let res = match r {
-        Ok(()) => tl![A(0)],
-        Err(e) => tl![A(1), a(e.0)],
-    };
-    let after: Vec<Tree> = g.population().iter().map(|x| a(*x)).collect();
-    let log = probe.log.lock().unwrap().clone();
-    Some(tl![res, L(after), L(log)])
+    let mut outs: Vec<Tree> = vec![];
+    for (mode, fail_at) in &steps {
+        // one Generation value throughout; the probe is told what the population is before each step
+        *probe.old.lock().unwrap() = g.population().clone();
+        probe.log.lock().unwrap().clear();
+        probe.calls.store(0, Ordering::SeqCst);
+        probe.fail_at.store(*fail_at, Ordering::SeqCst);
+        probe.addr.store(g.population() as *const Vec<i64> as usize, Ordering::SeqCst);
+        let r = if *mode == 0 {
+            g.serial_next()
+        } else {
+            let pool = rayon::ThreadPoolBuilder::new().num_threads(*mode).build().ok()?;
+            pool.install(|| g.par_next())
+        };
+        let res = match r {
+            Ok(()) => tl![A(0)],
+            Err(e) => tl![A(1), a(e.0)],
+        };
+        let after: Vec<Tree> = g.population().iter().map(|x| a(*x)).collect();
+        let log = probe.log.lock().unwrap().clone();
+        outs.push(tl![res, L(after), L(log)]);
+    }
+    let mut first = outs.remove(0).list()?.to_vec();
+    if l.len() == 4 {
+        first.push(L(outs));
+    }
+    Some(L(first))
 }
 
 fn gen(tier: &str, rng: &mut Sm) -> Gen {
@@ -93,6 +122,17 @@ fn gen(tier: &str, rng: &mut Sm) -> Gen {
             }
         }
     }
-    g.meta("generator", format!("population sizes 0, 1, 2, 7, 64; serial_next and par_next under rayon pools of 1, 2, 3, 4, 8, 16 threads x {reps} repetitions; failure injected at every call position (sampled for size 64) and none"));
+    // histories: ONE Generation value stepped several times - failing steps (at every position) followed by
+    // successful ones, serial and parallel mixed; each step is judged from the population the previous one left
+    for size in [1usize, 2, 3, 7] {
+        let pop: Vec<Tree> = (0..size).map(|_| a(rng.range(-1000, 1000))).collect();
+        for f in 0..size as i64 {
+            for (m1, m2, m3) in [(0usize, 0usize, 0usize), (0, 2, 0), (3, 0, 1), (1, 1, 0)] {
+                g.inputs.push(tl![au(m1), L(pop.clone()), a(f), L(vec![tl![au(m2), A(-1)], tl![au(m3), a((f + 1) % size as i64)], tl![au(m1), A(-1)], tl![A(0), A(-1)]])]);
+            }
+        }
+        g.inputs.push(tl![A(0), L(pop.clone()), A(-1), L(vec![tl![A(0), A(-1)], tl![A(4), A(-1)], tl![A(0), a(size as i64 - 1)], tl![A(0), A(-1)]])]);
+    }
+    g.meta("generator", format!("population sizes 0, 1, 2, 7, 64; serial_next and par_next under rayon pools of 1, 2, 3, 4, 8, 16 threads x {reps} repetitions; failure injected at every call position (sampled for size 64) and none; histories of 5 steps of one Generation value (failing steps followed by successful ones, serial and parallel mixed)"));
     g
 }
